@@ -153,6 +153,7 @@ PROPS = {
             {"kind": "verus", "unit": "intops"},
             {"kind": "verus", "unit": "digits"},
             {"kind": "verus", "unit": "binom"},
+            {"kind": "verus", "unit": "floatint"},
             {"kind": "kani-mini", "crate": "int", "harnesses": [
                 {"harness": "harness::" + h, "fn": "src/util/lazy_bigint.rs :: " + f, "timeout": 300}
                 for h, f in [
